@@ -1,0 +1,26 @@
+//! Helpers to deserialize untrusted bytes: the counts and lengths announced by
+//! the input are never trusted to size an allocation.
+
+use cosmian_crypto_core::bytes_ser_de::Deserializer;
+
+use crate::Error;
+
+/// Bounds the capacity to reserve for `n` announced elements by the number of
+/// bytes left to read: each element takes at least one byte.
+pub(crate) fn bounded_capacity(n: usize, de: &Deserializer) -> usize {
+    n.min(de.value().len())
+}
+
+/// Reads a length-prefixed vector of bytes, checking the announced length
+/// against the bytes left to read before allocating.
+pub(crate) fn read_vec(de: &mut Deserializer) -> Result<Vec<u8>, Error> {
+    let mut peek = Deserializer::new(de.value());
+    let len = peek.read_leb128_u64()?;
+    if len > peek.value().len() as u64 {
+        return Err(Error::ConversionFailed(format!(
+            "vector of {len} bytes announced but only {} bytes left",
+            peek.value().len()
+        )));
+    }
+    de.read_vec().map_err(Error::from)
+}
